@@ -114,8 +114,10 @@ def always_exits(stmts: List[ast.stmt]) -> bool:
 
 
 class FactFlow:
-    def __init__(self, func_node: ast.AST, param_types: Optional[Dict[str, tuple]] = None, ival=None, nn_call=None, ret_nonneg=None, init_facts=None, pred_inline=None):
+    def __init__(self, func_node: ast.AST, param_types: Optional[Dict[str, tuple]] = None, ival=None, nn_call=None, ret_nonneg=None, init_facts=None, pred_inline=None,
+                 ret_facts=None):
         self.node = func_node
+        self.ret_facts = ret_facts
         self.pred_inline = pred_inline
         self.facts_at: Dict[int, FrozenSet[Fact]] = {}
         self.types = param_types or {}
@@ -399,6 +401,11 @@ class FactFlow:
                     out.add(("LEN>=", tn, str(len(v.elts))))
                 if isinstance(v, ast.Constant) and isinstance(v.value, (str, bytes)) and v.value:
                     out.add(("T", tn))
+        if isinstance(s, ast.Assign) and len(s.targets) == 1 and isinstance(s.targets[0], ast.Tuple) and isinstance(s.value, ast.Call) and self.ret_facts is not None \
+                and all(isinstance(el, ast.Name) for el in s.targets[0].elts):
+            # what the helper knows about the values it returns, in terms of the names they are unpacked into
+            for f in self.ret_facts(s.value, [el.id for el in s.targets[0].elts]):
+                out.add(f)
         if isinstance(s, ast.Assign) and len(s.targets) == 1 and isinstance(s.targets[0], ast.Tuple) and isinstance(s.value, ast.Call) and self.ret_nonneg is not None:
             for i, el in enumerate(s.targets[0].elts):
                 if isinstance(el, ast.Name) and self.ret_nonneg(s.value, i):
@@ -730,3 +737,18 @@ def backedge_assigned(stmts: List[ast.stmt]) -> Set[str]:
                         acc.add(n.id)
         return acc
     return visit(stmts)
+
+
+def rename_fact(f: Fact, mapping: Dict[str, str]) -> Fact:
+    """the fact with identifiers renamed (inside expression texts too)"""
+    import re as _re
+
+    def ren(part):
+        if isinstance(part, str):
+            if not mapping:
+                return part
+            return _re.sub(r"(?<![\w.])(" + "|".join(_re.escape(k) for k in mapping) + r")(?![\w])", lambda m_: mapping[m_.group(1)], part)
+        if isinstance(part, frozenset):
+            return frozenset(rename_fact(g, mapping) for g in part)
+        return part
+    return (f[0],) + tuple(ren(p_) for p_ in f[1:])
